@@ -396,6 +396,10 @@ pub fn data_variants(seed: u64, tag: u64, len: usize) -> Vec<(&'static str, Vec<
 pub fn iv_variants(seed: u64, len: usize) -> Vec<(&'static str, Vec<u8>)> {
     vec![("zero", vec![0u8; len]), ("ff", vec![0xffu8; len]), ("pat", pattern(seed, 0x1717, len))]
 }
+/// quick tier, large blocks: one IV / data pattern instead of three (the shapes explored stay the same)
+pub fn light(cfg: &Cfg, tier: Tier) -> usize {
+    if tier == Tier::Quick && cfg.bs >= 48 { 2 } else { 0 }
+}
 pub fn keys(seed: u64, len: usize) -> Vec<Vec<u8>> {
     vec![pattern(seed, 0xA11CE, len), pattern(seed, 0xB0B, len)]
 }
